@@ -338,6 +338,11 @@ class Check:
             cov.update(extra)
         if not cov["samples"]:
             cov["samples"] = [o[0] for o in self.obligations[:3]] or ["(none)"]
+        if level == "proof" and (ndis < nob or ndis == 0):
+            # a proof-level claim needs every obligation discharged; a run on which some are not reports a violation and says so here
+            level = "other"
+            cov["explanation"] = (f"proof-level check, but only {ndis} of {nob} obligations were discharged on this run; the run reports the "
+                                  "broken obligation (with the failing input the search found, if any) as a violation")
         ev = {"property_id": self.pid, "tier": self.tier, "seed": self.seed, "level": level,
               "coverage": cov, "assumptions": list(assumptions), "wall_s": round(wall, 2),
               "violations": len(self.violations)}
